@@ -1360,7 +1360,10 @@ class Process(StateMachine, persistence.Savable, metaclass=ProcessStateMachineMe
                 next_state = self.create_state(process_states.ProcessState.EXCEPTED, *sys.exc_info()[1:])
                 self._set_interrupt_action(None)
 
-            if self._interrupt_action:
+            if self.has_terminated():
+                # Terminated while the step was in flight (e.g. through fail()), nothing left to do
+                pass
+            elif self._interrupt_action:
                 self._interrupt_action.run(next_state)
             else:
                 # Everything nominal so transition to the next state
